@@ -44,12 +44,14 @@ func checkC06(p *Prog, r *Report) {
 	r.rule("C06.I3", "every node reachable from the entry without crossing a check-passed edge (or the no-cipher arm) has a transitive effect set within {Snmp.InCsumErrors, blockCrypt.decbuf/decMu, locals, the datagram buffer}; no channel operation, no goroutine", 20)
 	r.rule("C06.I4", "CRC coverage agrees: the reader compares bytes [nonceSize, nonceSize+crcSize) with the checksum of [cryptHeaderSize:] of the decrypted packet; the writer stores ChecksumIEEE(buf[cryptHeaderSize:]) at buf[nonceSize:] before every BlockCrypt.Encrypt (data and parity)", 3)
 	r.rule("C06.I7", "discarding must not crash: the error counters bumped for a failing datagram are 64-bit aligned on 32-bit platforms too (= C05.B11)", 10)
+	r.rule("C06.I9", "a datagram that has not passed the check yet lands in memory nobody else reads: the buffer handed to ReadFrom / the buffers of the batch messages are allocated with make in the receive path itself — never a slice of session or listener state (the reader's carry-over buffer, a pooled buffer in use), which a rejected datagram would overwrite although it is 'discarded'", 3)
 	r.rule("C06.I8", "the cipher that checks incoming datagrams is the one the application configured: every store to UDPSession.block / Listener.block takes a BlockCrypt parameter as it is (or another session's/listener's block field), and so does every call that hands the cipher on — a configured cipher (the none cipher included: it still carries the CRC32) is never replaced or dropped on the way", 2)
 	r.rule("C06.I6", "a receive loop ends only on the socket's own error: the error variable tested is assigned by the read call alone, and every return inside the loop is dominated by that test — no property of a datagram (length 0, content) can end the loop", 2)
 	r.rule("C06.I5", "the verifying functions are siblings: each has the no-cipher arm, the AEAD gate and the CRC gate", 2)
 	checkReceiveLoopExits(p, r)
 	checkAtomicAlignment(p, r, "C06.I7")
 	checkCipherHandedThrough(p, r)
+	checkReceiveBuffersPrivate(p, r)
 
 	open := p.Method("aeadCrypt", "Open")
 	blockCryptT, _ := p.lookup("BlockCrypt").(*types.TypeName)
@@ -827,5 +829,116 @@ func checkCipherHandedThrough(p *Prog, r *Report) {
 	}
 	if n == 0 {
 		r.bad("C06.I8", "sessions and listeners", "-", "store of the cipher", "no store to UDPSession.block / Listener.block found", "")
+	}
+}
+
+// checkReceiveBuffersPrivate: C06.I9.
+func checkReceiveBuffersPrivate(p *Prog, r *Report) {
+	isMake := func(e ast.Expr) bool {
+		call, ok := ast.Unparen(e).(*ast.CallExpr)
+		return ok && p.BuiltinName(call) == "make"
+	}
+	n := 0
+	// the receive path: functions that read from the socket, and the unexported helpers they call directly (message-vector constructors)
+	calls := func(fi *FuncInfo, names ...string) bool {
+		hit := false
+		inspectBody(fi, func(x ast.Node) bool {
+			if call, ok := x.(*ast.CallExpr); ok {
+				if sel, ok := ast.Unparen(call.Fun).(*ast.SelectorExpr); ok {
+					for _, nm := range names {
+						if sel.Sel.Name == nm {
+							hit = true
+						}
+					}
+				}
+			}
+			return true
+		})
+		return hit
+	}
+	recvPath := map[*FuncInfo]bool{}
+	for _, fi := range p.funcs {
+		if fi.Body != nil && calls(fi, "ReadFrom", "ReadBatch") {
+			recvPath[fi] = true
+		}
+	}
+	var readers []*FuncInfo
+	for _, fi := range p.funcs {
+		if recvPath[fi] {
+			readers = append(readers, fi)
+		}
+	}
+	for _, fi := range readers {
+		inspectBody(fi, func(x ast.Node) bool {
+			if call, ok := x.(*ast.CallExpr); ok {
+				if f := p.Callee(call); f != nil && f.Pkg() == p.Types && !f.Exported() {
+					if h := p.FuncOf(f); h != nil && h.Body != nil && !calls(h, "WriteTo", "WriteBatch") {
+						recvPath[h] = true
+					}
+				}
+			}
+			return true
+		})
+	}
+	for _, fi := range p.funcs {
+		if fi.Body == nil || !recvPath[fi] {
+			continue
+		}
+		inspectBody(fi, func(x ast.Node) bool {
+			switch y := x.(type) {
+			case *ast.CallExpr:
+				sel, ok := ast.Unparen(y.Fun).(*ast.SelectorExpr)
+				if !ok || sel.Sel.Name != "ReadFrom" || len(y.Args) != 1 {
+					return true
+				}
+				// only socket reads: the receiver is a net.PacketConn / *net.UDPConn valued field or local
+				if t := p.Info.TypeOf(sel.X); t == nil || !strings.Contains(t.String(), "net.") {
+					return true
+				}
+				n++
+				construct := exprString(y.Fun) + "(" + exprString(y.Args[0]) + ") in " + fi.Name
+				v := identVar(p, y.Args[0])
+				ok = v != nil && !p.isParam(v)
+				why := "the receive buffer is not a local of the receive loop"
+				if ok {
+					as := p.Assignments(rootFuncInfo(fi), v)
+					if len(as) == 0 {
+						ok = false
+					}
+					for _, a := range as {
+						if a.Rhs == nil || !isMake(a.Rhs) {
+							ok = false
+							why = "the receive buffer is " + exprString(a.Rhs) + ", not a fresh make([]byte, …)"
+						}
+					}
+				}
+				r.check(ok, "C06.I9", fi.Name, p.Pos(y), construct, "a buffer allocated by the receive loop itself", why+": datagrams are written into it before they are decrypted and checked, so a rejected datagram overwrites whatever else lives in that memory (for the session's recvbuf: the unread tail of a partially read message)")
+			case *ast.AssignStmt:
+				for i, l := range y.Lhs {
+					ls, ok := ast.Unparen(l).(*ast.SelectorExpr)
+					if !ok || ls.Sel.Name != "Buffers" || i >= len(y.Rhs) {
+						continue
+					}
+					if t := p.Info.TypeOf(ls.X); t == nil || !strings.Contains(t.String(), "Message") {
+						continue
+					}
+					n++
+					okB := false
+					if cl, isCL := ast.Unparen(y.Rhs[i]).(*ast.CompositeLit); isCL && len(cl.Elts) > 0 {
+						okB = true
+						for _, el := range cl.Elts {
+							if !isMake(el) {
+								okB = false
+							}
+						}
+					}
+					r.check(okB, "C06.I9", fi.Name, p.Pos(y), exprString(l)+" = "+exprString(y.Rhs[i])+" in "+fi.Name, "buffers allocated by the receive path itself", "the buffers of the batch messages are not fresh make([]byte, …) allocations: datagrams are written into them before they are decrypted and checked")
+				}
+			}
+			return true
+		})
+	}
+	if n == 0 {
+		r.bad("C06.I9", "receive loops", "-", "receive buffers", "no socket read found", "")
 	}
 }
